@@ -79,6 +79,7 @@ func init() {
 			{"R14", R14},
 			{"R15", R15},
 			{"R9", R9("gotype")},
+			{"R11", R11},
 		},
 		LevelText: "Structural necessary conditions decided over all start-event implementations (taint to allocation sinks), all map selector arms, all map store sites and the Reset path. The interesting inputs are the ones fixtures avoid (untrusted length fields, mismatching targets, abandoned documents); the rules cover every such input because they do not enumerate inputs.",
 		Technique: "SSA taint from announced lengths to allocation sinks with constant-bound sanitiser; AST sibling rule for map-key checks; dominance rule for nil-map allocation; path rule for Reset completeness; panic-site enumeration",
@@ -143,6 +144,7 @@ func init() {
 			{"R7", R7},
 			{"R3", R3("ubjson")},
 			{"R2", R2("ubjson")},
+			{"R11", R11},
 		},
 		LevelText: "Structural necessary conditions on every path of the ubjson container handlers and step functions. Optimized containers nested in optimized containers are never parsed by the suite; the completion-vector rule covers every nesting by induction.",
 		Technique: "completion-vector (stack delta) analysis of container handlers with sibling agreement; collect-guard and stutter-freedom path analysis",
@@ -207,6 +209,8 @@ func init() {
 		Rules: []RuleRun{
 			{"R10", R10},
 			{"R7", R7},
+			{"R11", R11},
+			{"R6", R6("visitors")},
 		},
 		LevelText: "Structural necessary condition that is close to the whole property for the adapters and the fold side: regular-language inclusion of every function's emitted event words in the grammar of its effect type, decided by a product of the SSA control-flow graph with the grammar automaton. Announced lengths and types are ignored by the JSON encoder and by the test comparison, so no test can see a wrong announcement.",
 		Technique: "product of SSA paths with a Visitor-grammar automaton (terminals = visitor events, non-terminals = fold function values typed by a getter table), loop-iteration element counting for announced lengths, type-derived announce table for adapters",
